@@ -25,6 +25,9 @@ def handle (seen : Std.HashMap String String) (j : Json) : Except String (Json Ã
   let reqs â† strs "requests"
   let ds â† strs "datastore"
   let cache â† strs "cache"
+  let cacheReqs : List String := match optField impl "cache_requests" with
+    | some (.arr a) => a.toList.filterMap fun x => x.getStr?.toOption
+    | _ => []
   let outside â† (â† impl.getObjVal? "outside").getBool?
   let loaded := (â† (â† impl.getObjVal? "load").getStr?) == "ok"
   -- every observed entry is the model's file name
@@ -32,13 +35,16 @@ def handle (seen : Std.HashMap String String) (j : Json) : Except String (Json Ã
   -- file names the harness cannot tell apart from the top-level files it filters out of its listings
   let masked := ["1.root.json", "2.root.json", "root.json", "timestamp.json", "snapshot.json", "targets.json",
     "1.snapshot.json", "1.targets.json", "latest_known_time.json"].contains file
-  let agree := editor == file && sameAs reqs && sameAs ds && sameAs cache &&
+  let agree := editor == file && sameAs reqs && sameAs ds && sameAs cache && sameAs cacheReqs &&
     (!loaded || masked || (reqs == [file] && ds == [file] && cache == [file]))
   -- the property: plain entries directly inside the directories, nothing outside
-  let plain := isPlain editor && reqs.all isPlain && ds.all isPlain && cache.all isPlain && !outside
+  let plain := isPlain editor && reqs.all isPlain && ds.all isPlain && cache.all isPlain && cacheReqs.all isPlain && !outside
   -- no collision with another role name (same naming mode), nor with a top-level role's file
+  -- (every file name observed at ANY site â€” editor, request, datastore, cache â€” belongs to this role alone)
   let key := (if cs then "cs:" else "plain:") ++ editor
-  let clash := match seen[key]? with
+  let keysOf (l : List String) := l.map fun f => (if cs then "cs:" else "plain:") ++ f
+  let allKeys := (key :: (keysOf reqs ++ keysOf ds ++ keysOf cache ++ keysOf cacheReqs)).eraseDups
+  let clash := allKeys.any fun k => match seen[k]? with
     | some other => other != nameS
     | none => false
   let nameStr := bytesToString name
@@ -49,7 +55,7 @@ def handle (seen : Std.HashMap String String) (j : Json) : Except String (Json Ã
     ((editor.dropRight ".root.json".length).toList.all Char.isDigit) && editor.length > ".root.json".length
   let hitsTopLevel := (reserved.contains editor || isRootFile) && !(topLevelNames.contains nameStr)
   let spec := plain && !clash && !hitsTopLevel
-  let seen' := seen.insert key nameS
+  let seen' := allKeys.foldl (fun m k => if m.contains k then m else m.insert k nameS) seen
   pure (Json.mkObj [("model", Json.mkObj [("file", file)]), ("agree", agree), ("spec_on_impl", spec),
     ("spec_on_model", Json.bool (isPlain file)),
     ("tags", Json.arr #[Json.str (if loaded then "loaded" else "load-failed")])], seen')
